@@ -12,7 +12,7 @@ FLOAT_TOL = 1e-12
 STATS = G.STATS
 PARTIAL = [
     "length_curve: chord <= length <= control polygon ARE Lean theorems for every seminorm N (non-negative, sub-additive, positively homogeneous; the Euclidean norm over the reals IS proved to be an instance - euclid_is_seminorm, with the real-number corollaries length_curve_ge_chord_euclid / length_curve_le_control_polygon_euclid, its distance is sqrt(sum (b_i-a_i)^2) = point_distance and its radicand the normSq of C16 -, the l1 norm an instance over every ordered field), in exact arithmetic, for the model polylineLength / curveLength of operations.length_curve (sum structure tied by the 'lensum' stream) at the library's linspace sample parameters and at ANY increasing parameters; hypotheses: degree >= 1, well-formed knot vector (CurveWF), clamped at the end for the upper bound / at both ends for the chord between the end control points, at least two samples for the chord bound (with sample_size 1 evalpts is the single start point and the length 0 is below the chord). RATIONAL curves ARE covered (length_curve_rational_ge_chord / length_curve_rational_le_control_polygon, their _euclid corollaries over the reals, rational_polyline_le_control_polygon for any increasing parameters): homogeneous control points of dimension d+1 with ALL WEIGHTS POSITIVE, evalpts = the projected points (curveGrid true), and the polygon / chord are those of the CARTESIAN control points Pw_i / w_i (Pw.map project, what ctrlpts returns) - knot insertion on the homogeneous net is corner cutting on the Cartesian points with coefficient alpha*w_i / (alpha*w_i + (1-alpha)*w_(i-1)) in [0,1] (projected_insertion_is_corner_cutting, insertion_does_not_lengthen_rational_control_polygon) and keeps the weights positive; every sampled weight is positive (length_curve_rational_samples_weight_positive), so no projection divides by zero. Not covered: zero or negative weights (the bounds are false in general there). MODEL SCOPE: the end-to-end chord bound and the corollaries named length_curve_* are about the whole-domain sample linspace(U_p, U_n, num) with the current sample size (evalpts as a plain evaluate() fills it); the real length_curve reads the CACHED evalpts, and after evaluate(start=, stop=) that is a sub-interval: then only curve_samples_ge_chord (chord between the first and last cached point) and polyline_le_control_polygon (any increasing parameters) apply, the end-to-end chord bound does not (quadratic (0,0),(0,4),(3,4), evaluate(start=.4, stop=.5): length 0.517 < chord 5). NOT a theorem: that floating-point sqrt / float summation respects the inequalities (the oracle checks the float values with a relative slack of 1e-12, and the exact inequalities with the l1 and max norms, for non-rational and - on the projected points against the Cartesian control polygon - rational curves)",
-    "hull / bounding box / clamped ends are assembled through the span search for every parameter of the closed domain (curvePoint / surfacePoint / volumePoint, rational and not); find_ctrlpts: the hull theorems are also stated with the OUTPUT of the model of operations.find_ctrlpts (curve_in_hull_of_find_ctrlpts, surface_in_hull_of_find_ctrlpts), which returns exactly the active control points (C20.findCtrlpts_exact*, C18.find_ctrlpts_returns_exactly_the_active_points; strictly inside a span all p+1 coefficients are positive: curve_point_positive_combination_of_find_ctrlpts); what is NOT a Lean theorem: the object layer's dispatch (evaluate_single -> evaluator -> these model functions; for surfaces that ctrlpts2d[a][b] is entry b + size_v*a of the flat net is a hypothesis), tied by correspondence only; the clamped-end theorems need the first span non-empty (a start knot of multiplicity > p+1 moves the start point to a later control point)",
+    "hull / bounding box / clamped ends are assembled through the span search for every parameter of the closed domain (curvePoint / surfacePoint / volumePoint, rational and not); find_ctrlpts: the hull theorems are also stated with the OUTPUT of the model of operations.find_ctrlpts - for NON-RATIONAL shapes curve_in_hull_of_find_ctrlpts, surface_in_hull_of_find_ctrlpts (one net is both evaluated and indexed), for RATIONAL shapes rational_curve_in_hull_of_find_ctrlpts (find_ctrlpts of a NURBS curve indexes the CARTESIAN curve.ctrlpts = (separate Pw).1: projected evaluated point within the bounds on the returned points) and rational_surface_in_hull_of_find_ctrlpts (find_ctrlpts of a NURBS surface indexes the WEIGHTED ctrlpts2d: bounds on the projections of the returned points; positive weights) -, which returns exactly the active control points (C20.findCtrlpts_exact*, C18.find_ctrlpts_returns_exactly_the_active_points; strictly inside a span all p+1 coefficients are positive: curve_point_positive_combination_of_find_ctrlpts); what is NOT a Lean theorem: the object layer's dispatch (evaluate_single -> evaluator -> these model functions; for surfaces that ctrlpts2d[a][b] is entry b + size_v*a of the flat net is a hypothesis), tied by correspondence only; the clamped-end theorems need the first span non-empty (a start knot of multiplicity > p+1 moves the start point to a later control point)",
 ]
 
 
